@@ -14,6 +14,7 @@
 """
 import json, math, random
 from vf import core, gen
+from vf.num import gt, nmax as max, nmin as min
 
 PROPERTY = "C04"
 EPS = 2.0 ** -52
@@ -211,7 +212,7 @@ def run_case(case):
                     counters['multi_system_vs_alone'] = counters.get('multi_system_vs_alone', 0) + 1
                     sc_ = max(abs(getattr(p_, k_)) for p_ in alone.particles for k_ in ('x', 'y', 'z'))
                     dd = max(abs(getattr(a_, k_) - getattr(b_, k_)) for a_, b_ in zip(alone.particles, sim.particles[q * nper:(q + 1) * nper]) for k_ in ('x', 'y', 'z'))
-                    if dd > 1e-9 * sc_ * max(1.0, done / 100.0):
+                    if gt(dd, 1e-9 * sc_ * max(1.0, done / 100.0)):
                         add('multi-system:differs-from-standalone:whfast512', '%s: system %d of %d (star mass %r): max position difference %.3e after %d steps' % (desc, q, nsys, init_systems[q][0].m, dd, done))
             mP = max(h[1] for h in hist); mX = max(h[2] for h in hist); mL = max(h[3] for h in hist); mE = max(h[4] for h in hist)
             for nm, v in (('P', mP), ('X', mX), ('L', mL)):
@@ -219,40 +220,40 @@ def run_case(case):
                 worst[key] = max(worst.get(key, 0), int(v * 10))
             worst['worst_E_x1e16:%s' % (integ if kind == 'conserve' else integ + ':encounter')] = max(worst.get('worst_E_x1e16:%s' % (integ if kind == 'conserve' else integ + ':encounter'), 0), int(mE * 1e16))
             KP = case['KP']
-            if mP > KP:
+            if gt(mP, KP):
                 add('conserve:linear-momentum:%s%s' % (integ, ':encounter' if kind == 'encounter' else ''), '%s: max |dP| = %.1f x eps S_p sqrt(n)' % (desc, mP))
-            if mX > KP:
+            if gt(mX, KP):
                 add('conserve:centre-of-mass-not-uniform:%s%s' % (integ, ':encounter' if kind == 'encounter' else ''), '%s: max |X_com - X0 - V t| = %.1f x eps (S_x + S_p t) sqrt(n)' % (desc, mX))
             if kind == 'conserve':
                 if integ in SYMPLECTIC:
                     bary = spec['opts'].get('ri_whfast.coordinates') == 'barycentric'
-                    if mL > case['KL']:
+                    if gt(mL, case['KL']):
                         add('conserve:angular-momentum:%s%s' % (integ, ':barycentric-coordinates' if bary else ''), '%s: max |dL| = %.1f x eps S_L sqrt(n)' % (desc, mL))
                     if bary:
                         # the star is not integrated in this splitting but derived from the constraint: its angular momentum picks up
                         # cross terms of order (planet mass / star mass)^2 (recorded known finding); anything larger is something else
                         mu = sum(p_['m'] for p_ in spec['system']['planets']) / spec['system']['mstar']
                         relL = mL * EPS * math.sqrt(done)
-                        if relL > 200 * mu * mu + 1e-13:
+                        if gt(relL, 200 * mu * mu + 1e-13):
                             add('conserve:angular-momentum-class:whfast:barycentric', '%s: max |dL|/S_L = %.3e > 200 mu^2 = %.3e' % (desc, relL, 200 * mu * mu))
                 else:
                     relL = max(h[3] for h in hist) * EPS * math.sqrt(done)        # ~ relative to S_L
                     cls = {'ias15': 1e-12, 'bs': 1e4 * max(spec['opts'].get('ri_bs.eps_rel', 1e-8), spec['opts'].get('ri_bs.eps_abs', 1e-8)), 'mercurius': 1e-7, 'trace': 1e-7}[integ]
-                    if relL > cls:
+                    if gt(relL, cls):
                         add('conserve:angular-momentum-class:%s' % integ, '%s: max |dL|/S_L = %.3e > class %.1e' % (desc, relL, cls))
                 # energy
                 if integ == 'ias15':
                     lim = 1e-12 if spec['opts'].get('ri_ias15.epsilon', 1e-9) <= 1e-8 and 'ri_ias15.min_dt' not in spec['opts'] else 1e-6
-                    if mE > lim:
+                    if gt(mE, lim):
                         add('conserve:energy-class:ias15', '%s: max |dE/E| = %.3e' % (desc, mE))
                 elif integ == 'bs':
                     lim = 1e5 * max(spec['opts'].get('ri_bs.eps_rel', 1e-8), spec['opts'].get('ri_bs.eps_abs', 1e-8))
-                    if mE > lim:
+                    if gt(mE, lim):
                         add('conserve:energy-class:bs', '%s: max |dE/E| = %.3e > %.1e' % (desc, mE, lim))
                 else:
                     third = [h[4] for h in hist if h[0] <= done / 3.0]
                     mu_sys = sum(p_['m'] for p_ in spec['system']['planets']) / spec['system']['mstar'] if nsys == 1 else 1e-2
-                    if mE > ({'leapfrog': 0.3, 'janus': 0.3, 'eos': 5e-2}.get(integ, 1e-3)) + 5 * mu_sys:
+                    if gt(mE, ({'leapfrog': 0.3, 'janus': 0.3, 'eos': 5e-2}.get(integ, 1e-3)) + 5 * mu_sys):
                         add('conserve:energy-bound:%s' % integ, '%s: max |dE/E| = %.3e' % (desc, mE))
                     elif third and done >= 300 and nsys == 1 and abs(done * spec['dt']) >= 30 * gen.inner_period(spec['system']) * spec.get('tscale', 1.0) and integ not in ('mercurius', 'trace') and mE > 300 * max(third) + 1e-12 and mE > 1e-7:
                         # drifting? fit: compare the last third's max with the first third's
@@ -297,13 +298,13 @@ def run_case(case):
                     s = sums(sim, G)
                     T = sim.t - t0
                     n = step + 1
-                    if abs(s['M'] - s0['M']) > 16 * EPS * s0['M'] * N0:
+                    if gt(abs(s['M'] - s0['M']), 16 * EPS * s0['M'] * N0):
                         add('merge:total-mass:%s' % integ, '%s: mass %r -> %r after %d mergers' % (desc, s0['M'], s['M'], N0 - sim.N))
                     dP = max(abs(s['P'][k] - s0['P'][k]) for k in range(3))
                     dX = max(abs(s['X'][k] - s0['X'][k] - s0['P'][k] * T) for k in range(3))
-                    if dP > case['KP'] * EPS * s0['Sp'] * math.sqrt(n):
+                    if gt(dP, case['KP'] * EPS * s0['Sp'] * math.sqrt(n)):
                         add('merge:linear-momentum:%s' % integ, '%s: |dP| = %.3e = %.1f x eps S_p sqrt(n) after a merger at step %d' % (desc, dP, dP / (EPS * s0['Sp'] * math.sqrt(n)), step))
-                    if dX > case['KP'] * EPS * (s0['Sx'] + s0['Sp'] * abs(T)) * math.sqrt(n):
+                    if gt(dX, case['KP'] * EPS * (s0['Sx'] + s0['Sp'] * abs(T)) * math.sqrt(n)):
                         add('merge:centre-of-mass-not-uniform:%s' % integ, '%s: |X_com - X0 - V t| = %.3e after a merger at step %d' % (desc, dX, step))
                     lastN = sim.N
                 if sim.N < 2:
@@ -349,7 +350,7 @@ def run_case(case):
                     sc_ = math.fsum(abs(p[0] * p[1 + k]) for p in ps) / M + 1e-300
                     if not abs(got - want) <= 64 * EPS * sc_ * n:
                         add('diagnostic:centre-of-mass', 'N=%d: component %d: %r vs %r' % (n, k, got, want))
-                if abs(c.m - M) > 16 * EPS * M * n:
+                if gt(abs(c.m - M), 16 * EPS * M * n):
                     add('diagnostic:centre-of-mass', 'N=%d: total mass %r vs %r' % (n, c.m, M))
             cells.add(json.dumps(['diagnostics', tp, sim.testparticle_type if tp else -1]))
     for v in viol:
